@@ -383,6 +383,13 @@ func genPersistCase(r *vlib.R, emit func(string)) int {
 			n++
 		}
 	}
+	if raceBudget > 0 && r.Chance(1, 6) {
+		raceBudget--
+		a, _ := u.entry(r, "plain")
+		b, _ := u.entry(r, vlib.Pick(r, []string{"plain", "wild"}))
+		emit(fmt.Sprintf("bl persistrace %s %s %s", vlib.Pick(r, []string{"hl", "hl", "lh"}), enc(a), enc("race."+b)))
+		n++
+	}
 	// drain in random order; the newest one without a fault most of the time
 	for len(pending) > 0 {
 		j := r.Intn(len(pending))
@@ -449,6 +456,9 @@ func genCrashCase(r *vlib.R, emit func(string)) int {
 	return 1
 }
 
+// raceBudget: how many persistrace ops (80 ms each) a run may still emit.
+var raceBudget int
+
 func versionOf() uint64 {
 	v, _ := versions()
 	return v
@@ -465,9 +475,16 @@ func gen(r *vlib.R, n int, tier string, emit func(string)) {
 	emit("bl serve " + enc("sub.example.com.") + " 16")
 	emit("bl serve " + enc("example.org.") + " 1")
 	crashes, concs := 14, 12
+	raceBudget = 8
 	if tier == "thorough" {
 		crashes, concs = 150, 300
+		raceBudget = 100
 	}
+	// fixed witness of the persist race (both start orders)
+	emit("bl new 0.0.0.0 :: _ _ _")
+	emit("bl persistrace hl " + enc("low.example.com") + " " + enc("high.example.com"))
+	emit("bl persistrace lh " + enc("low2.example.com") + " " + enc("high2.example.com"))
+	emit("bl state")
 	every := n / (crashes + 1)
 	everyC := n / (concs + 1)
 	nextCrash, nextConc := every, everyC/2
